@@ -7,8 +7,10 @@ import inspect
 from . import sexp, tyconv, values
 from .sexp import Q
 
+# (the source annotations are strings: no traced type can be the same object as one of them, so "kept the source's annotation"
+#  and "received the traced type" cannot be confused)
 SRC = '''
-def fd0(a, b: int, c=None, *, d: str = None) -> float:
+def fd0(a, b: 'SrcB', c=None, *, d: 'SrcD' = None) -> 'SrcR':
     return None
 
 
@@ -17,7 +19,7 @@ def fd1(a, b=1, *rest, k=None, **kw):
 
 
 class FK:
-    def m(self, a, b: int = 1):
+    def m(self, a, b: 'SrcB' = 1):
         return None
 
     @classmethod
@@ -25,7 +27,7 @@ class FK:
         return None
 
     @staticmethod
-    def sm(a, b) -> int:
+    def sm(a, b) -> 'SrcR':
         return None
 
     @property
